@@ -28,7 +28,7 @@ from collections import deque
 from .errdisc import effective_cond, NO_ERROR
 
 CAP = 4096          # partitions per block before collapsing
-WIDEN_AFTER = 3     # growing joins of one partition before widening
+WIDEN_AFTER = 80    # growing joins of one partition at a loop head before widening (a x10 chain ends within 64 steps by itself)
 SPLIT_MAX = 64      # widest interval of a loop counter that is split into single values
 STEP_LIMIT = 200000
 
